@@ -37,12 +37,15 @@ CLAIMED = {
           "identity, seeded-noise and chirp instantiations (dyadic, 187.5 MHz and 3 GHz rates, both orientations, "
           "real and complex custom sources) and the decoded sample identities, evaluation times, noise values, "
           "clocks and flags are compared with TLC's post-state after every call. Refused requests (negative or fractional "
-          "counts) are actions of the model: they raise and leave clocks, flags and draw indices untouched."),
+          "counts) are actions of the model: they raise and leave clocks, flags and draw indices untouched. Leg T: recorded "
+          "executions of every source call (harness/record_stream.py; free-form drivers and the repository's voltage tests, "
+          "where RawVoltageBackend.record is the caller) are validated against StreamTrace.tla: families start together, a "
+          "request moves every clock it drives by exactly its size, clocks are continuous between calls."),
     note=("Trusted: TLC, identity decoding (custom sources returning round(t*rate)), reference noise from a copy of "
           "each stream's generator, chirp closed form at atol 1e-7*level (numeric projection outside TLC). One "
           "noise source per stream. Bounded: requests <= 4-6 samples, <= 3 antennas, sequences exhaustive to "
           "depth 2 (quick) / 3 and random to depth 7-10."),
-    technique="TLA+ model (TLC exhaustive) + spec-generated behaviours replayed on the implementation",
+    technique="TLA+ model (TLC exhaustive) + spec-generated behaviours replayed on the implementation + trace validation of recorded executions",
     design_ref="DESIGN.md 4.7, 5 (C10)", engine="stream"),
  "C15": dict(
     text=("Stream.tla's GetArray action transcribes MultiAntennaArray.get_samples (background request of n+maxDelay "
@@ -51,10 +54,12 @@ CLAIMED = {
           "(unsorted, repeated, all-zero, omitted) and request partitions. Replay on real arrays decodes own and "
           "background sample identities from identity-carrying sources and compares them, the cache lengths, "
           "clocks and flags with TLC's post-state after every call; seeded noise is compared value for value. A request not "
-          "above the largest delay is refused and leaves no trace (BadRequest action)."),
+          "above the largest delay is refused and leaves no trace (BadRequest action). Leg T: every recorded array request is "
+          "validated against StreamTrace.tla (background leads by the largest delay on the first request of an observation, "
+          "delay_i samples carried per antenna, re-seating drops them)."),
     note=("Trusted: TLC, identity decoding, reference noise draws. Bounded: <= 3 antennas, delays <= 2, requests <= 6, "
           "depth as C10. Requests must exceed the maximum delay (library precondition)."),
-    technique="TLA+ model (TLC exhaustive) + spec-generated behaviours replayed on the implementation",
+    technique="TLA+ model (TLC exhaustive) + spec-generated behaviours replayed on the implementation + trace validation of recorded executions",
     design_ref="DESIGN.md 4.7, 5 (C15)", engine="stream"),
  "C09": dict(
     text=("Quantizer.tla models the statistics cache and refresh counter of RealQuantizer/ComplexQuantizer and the "
@@ -358,7 +363,7 @@ NOT_YET = "no check (see DESIGN.md)"
 
 
 ADAPTER_SPEC = {"cadence": "Cadence.tla, CadenceTrace.tla, PyList.tla", "cadinject": "CadenceInject.tla, InjectionMath.tla, CadenceTrace.tla",
-                "stream": "Stream.tla", "quantizer": "Quantizer.tla, QuantTrace.tla, Inductive.tla", "pfb": "PFB.tla, Inductive.tla",
+                "stream": "Stream.tla, StreamTrace.tla", "quantizer": "Quantizer.tla, QuantTrace.tla, Inductive.tla", "pfb": "PFB.tla, Inductive.tla",
                 "backend": "Backend.tla, BackendTrace.tla, ArithLemmas.tla, Inductive.tla", "rawfiles": "RawFiles.tla, RawFilesTrace.tla, ArithLemmas.tla",
                 "accounting": "Accounting.tla", "inputmode": "InputMode.tla", "registration": "Registration.tla", "frameaxes": "FrameAxes.tla",
                 "injection": "Injection.tla, FrameTrace.tla", "constsignal": "ConstSignal.tla", "framelife": "FrameLife.tla, FrameTrace.tla",
